@@ -5,11 +5,11 @@ import (
 	"os"
 	"runtime"
 	"sort"
-	"time"
 	"strings"
 	"sync"
 	"sync/atomic"
 	"syscall"
+	"time"
 
 	"github.com/spq/pkappa2/verifx/mc"
 )
@@ -391,7 +391,7 @@ func (w *world) crashCheck() {
 			last.invalidated = false // a later invalidation does not change the bytes of the record
 			lastSig := e.sig([]rec{last})
 			pattern := sym("") + ranges(rel)
-			if single {
+			if single && !w.phys[0].invalidated {
 				e.stats.failPattern.Store(lastSig, pattern)
 			} else if p, ok := e.stats.failPattern.Load(lastSig); ok && inLast && p.(string) == pattern {
 				key = "file=" + lastSig
